@@ -1522,7 +1522,11 @@ impl UntypedExpr {
                 (ExprEnum::Cast(ty.clone(), Box::new(expr)), ty)
             }
             ExprEnum::Range(from, to, num_ty) => {
-                if from >= to || (to - from) > u32::MAX as u64 {
+                // (the last element `to - 1` must be a value of the range's number type)
+                if from >= to
+                    || (to - from) > u32::MAX as u64
+                    || num_ty.max().is_some_and(|max| to - 1 > max)
+                {
                     let e = TypeErrorEnum::InvalidRange(*from, *to);
                     return Err(vec![Some(TypeError::new(e, meta))]);
                 }
@@ -2919,6 +2923,30 @@ pub(crate) fn constrain_type(expr: &mut TypedExpr, expected: &Type) -> Result<()
             let ty_before = expr.ty.clone();
             check_or_constrain_signed(expr, *ty)?;
             cast_if_unspecified_value(expr, ty_before);
+        }
+        (
+            ExprEnum::Range(from, to, num_ty @ UnsignedNumType::Unspecified),
+            Type::Array(elem_ty, _) | Type::ArrayConst(elem_ty, _),
+        ) => {
+            // a range without a suffix takes the number type of the array's elements, which all of
+            // its elements must fit into
+            let max = match elem_ty.as_ref() {
+                Type::Unsigned(ty) => ty.max(),
+                Type::Signed(ty) => ty.max().map(|max| max as u64),
+                _ => None,
+            };
+            if max.is_some_and(|max| *to - 1 > max) {
+                let e = TypeErrorEnum::InvalidRange(*from, *to);
+                return Err(vec![Some(TypeError::new(e, expr.meta))]);
+            }
+            if let Type::Unsigned(ty) = elem_ty.as_ref() {
+                *num_ty = *ty;
+            } else {
+                let ty_before = expr.ty.clone();
+                overwrite_ty_if_necessary(&mut expr.ty, expected);
+                cast_if_unspecified_value(expr, ty_before);
+                return Ok(());
+            }
         }
         _ => {}
     }
